@@ -195,6 +195,26 @@ fn run_plane(op: u8, a: u8, only: Option<u32>, ctx: &mut Ctx) -> Result<(), Viol
     Ok(())
 }
 
+/// "switching step mode at any point does not alter the computation", at the place a user switches
+/// it: the TUI's Ctrl+W handler (`MachineState::toggle_step_mode`, real code of the binary crate)
+/// is given a copy of the machine; one toggle must change the step mode and nothing else, a second
+/// one must give the machine back unchanged.
+fn frontend_toggle_oracle(ms: &mut crate::tui::MachineState, r: &Machine, t: u32, ctx: &mut Ctx) -> Result<(), Violation> {
+    ms.machine = r.clone();
+    ms.toggle_step_mode();
+    let switched = ms.machine.step_mode() != r.step_mode();
+    if !switched || !same_but_mode(&ms.machine, r) {
+        let why = if !switched { "the step mode did not change".to_string() } else { first_diff(&ms.machine, r) };
+        return Err(v("mode-switch-alters-machine", t, format!("the TUI's step-mode toggle (Ctrl+W) changed more than the step mode: {}", why)));
+    }
+    ms.toggle_step_mode();
+    if ms.machine != *r {
+        return Err(v("mode-switch-alters-machine", t, format!("toggling the step mode twice in the TUI does not give the machine back: {}", first_diff(&ms.machine, r))));
+    }
+    ctx.cov.probe("frontend-mode-toggle");
+    Ok(())
+}
+
 fn run(scn: &Scn, ctx: &mut Ctx) -> Result<(), Violation> {
     if let Some((op, a)) = scn.plane {
         return run_plane(op, a, scn.only, ctx);
@@ -243,6 +263,7 @@ fn run(scn: &Scn, ctx: &mut Ctx) -> Result<(), Violation> {
     }
     let mut r = s.setup.build();
     r.set_step_mode(StepMode::Real);
+    let mut frontend = crate::tui::MachineState::new(&crate::args::InitialMachineConfiguration::default());
     let mut next = 0usize;
     for t in 0..s.max_edges {
         while next < s.events.len() && s.events[next].0 <= t {
@@ -275,6 +296,7 @@ fn run(scn: &Scn, ctx: &mut Ctx) -> Result<(), Violation> {
                 ctx.cov.probe("fork:interrupt-pending");
             }
             fork_oracle(&r, scn.chain, t, ctx)?;
+            frontend_toggle_oracle(&mut frontend, &r, t, ctx)?;
         }
         r.trigger_key_clock();
         ctx.cov.sim_edges += 1;
@@ -395,7 +417,7 @@ impl Check for C11 {
         out
     }
     fn rule(&self) -> String {
-        "Sweep: every first opcode byte at the program counter (and every second byte for 0xF0-0xFF), forked at each of the first 24 edges. Sampled: hazard programs, interrupt programs with key presses, opcode-biased and uniform random images, with key/continue/reset/input stimuli on arbitrary edges; the fork oracle runs at EVERY clock edge of every run with chains of 1-3 assembly steps. One sampled run in four is a history instead: one machine is stepped in Assembly mode 20-180 times with the stimuli landing between steps, next to a Real-mode shadow clocked to the next boundary for every step; both must agree after every step and every stimulus. evaluations = forks (history: steps); distinct = distinct (opcode class in IR, at-boundary?, halted?, interrupt pending?, how the step ended) fork phases.".into()
+        "Sweep: every first opcode byte at the program counter (and every second byte for 0xF0-0xFF), forked at each of the first 24 edges. Sampled: hazard programs, interrupt programs with key presses, opcode-biased and uniform random images, with key/continue/reset/input stimuli on arbitrary edges; the fork oracle runs at EVERY clock edge of every run with chains of 1-3 assembly steps. One sampled run in four is a history instead: one machine is stepped in Assembly mode 20-180 times with the stimuli landing between steps, next to a Real-mode shadow clocked to the next boundary for every step; both must agree after every step and every stimulus. At every fork point the TUI's step-mode toggle (MachineState::toggle_step_mode) is also applied to a copy: once = only the mode changes, twice = identity. evaluations = forks (history: steps); distinct = distinct (opcode class in IR, at-boundary?, halted?, interrupt pending?, how the step ended) fork phases.".into()
     }
     fn assumptions(&self) -> Vec<String> {
         vec![
@@ -405,7 +427,7 @@ impl Check for C11 {
         ]
     }
     fn components(&self) -> Value {
-        json!({"Machine::trigger_key_clock (both step modes), RawMachine": "real", "fork scheduler, PRNG": "harness", "reference interpreter": "not used"})
+        json!({"Machine::trigger_key_clock (both step modes), RawMachine": "real", "MachineState::toggle_step_mode (the TUI's Ctrl+W handler, compiled in from /repo/emulator-2a/src by #[path])": "real", "fork scheduler, PRNG": "harness", "reference interpreter": "not used"})
     }
     fn sample(&self, s: &Scn) -> Value {
         json!({
@@ -415,7 +437,7 @@ impl Check for C11 {
         })
     }
     fn must_fire(&self, _tier: Tier) -> Vec<String> {
-        ["fork:to-boundary", "fork:halt-ends-step-early", "fork:undefined-opcode-fixed-point", "fork:already-halted", "fork:mid-instruction", "fork:interrupt-pending", "history:to-boundary", "history:halt-ends-step-early", "history:undefined-opcode-fixed-point", "history:already-halted"].iter().map(|s| s.to_string()).collect()
+        ["fork:to-boundary", "fork:halt-ends-step-early", "fork:undefined-opcode-fixed-point", "fork:already-halted", "fork:mid-instruction", "fork:interrupt-pending", "history:to-boundary", "history:halt-ends-step-early", "history:undefined-opcode-fixed-point", "history:already-halted", "frontend-mode-toggle"].iter().map(|s| s.to_string()).collect()
     }
     fn exhaustive_dims(&self, _tier: Tier) -> Vec<String> {
         vec!["fork point: every clock edge of each run".into(), "opcode byte at PC 0..255 (x second byte 0..255)".into()]
